@@ -175,6 +175,11 @@ func (p *Parser) Parse(formatOnly bool) (*bytes.Buffer, int) {
 		n, _ := p.dest.WriteString(text)
 		wrote += n
 	}
+	// a read error ends the scan just like the end of the input does: stop here
+	// instead of carrying on with only a part of the text
+	if err := fileScanner.Err(); err != nil {
+		logger.Fatal().Err(err).Msg("Failed to read input")
+	}
 
 	// now that the file was parsed, we replace all definitions
 	if len(p.variables) > 0 {
